@@ -29,7 +29,7 @@ C02_OPS = ["add", "sub", "mul", "div", "sqrt", "neg", "abs", "copysign", "bitofs
 C08_OPS = ["ceil", "floor", "trunc", "round", "nearbyint", "rint", "nearbyint_as_int"]
 
 C04_OPS = ["load_aligned", "load_unaligned", "store_aligned", "store_unaligned", "broadcast", "bool_load_aligned", "bool_load_unaligned",
-           "bool_store_aligned", "bool_store_unaligned"]
+           "bool_store_aligned", "bool_store_unaligned", "gather", "gather_s", "scatter"]
 
 C06_OPS = [o for o in entries.OPS if o.startswith("batch_cast_to_") or o.startswith("bitwise_cast_to_")] + ["to_int", "to_float"]
 
